@@ -10,7 +10,7 @@ import "github.com/insomniacslk/dhcp/iana"
 // with82 != 0 forces the first code to be 82.
 func verifOptionSet(with82 int, ls ...int) (codes []uint8, vals [][]byte) {
 	for _, l := range ls {
-		if l < 0 {
+		if l < 0 && l != -2 {
 			continue
 		}
 		c := verifU8("code")
@@ -23,7 +23,11 @@ func verifOptionSet(with82 int, ls ...int) (codes []uint8, vals [][]byte) {
 			verifAssume(c != o)
 		}
 		codes = append(codes, c)
-		vals = append(vals, verifBytes("val", l))
+		if l == -2 {
+			vals = append(vals, nil) // present with a nil value (what the decoder stores for a zero-length option)
+		} else {
+			vals = append(vals, verifBytes("val", l))
+		}
 	}
 	return
 }
